@@ -213,6 +213,7 @@ inductive Out
       (staleBatch : List Nat)
   | stopped | retry | ckpt (id : Nat) (srs : List Nat)
   | ack (r : AckRes)
+  | barRefused   -- the sender is not a source runner of the operator's current deployment (repair D69)
   | barOk | barAcked (pub : Option Nat) (flushed : List (Nat × Nat)) (epoch : Nat)
   | barAckErr (r : AckRes) (flushed : List (Nat × Nat)) (epoch : Nat) | barMismatch | barBlocked | barNotReady
   | tickRead (ops : List Nat) | ckptCreated (id : Nat) | noTick
@@ -258,9 +259,11 @@ def register (s : St) (i sr id rid : Nat) (waiting : List Nat) : St × Out :=
   else
     ({ s with procs := setProc s.procs i { (s.procs i) with inflight := some (rid, waiting.filter (· ≠ sr)) } }, .barOk)
 
-/-- `HandleEvent` with a checkpoint barrier: `alignSender`, then `handleCheckpointBarrier` -/
+/-- `HandleEvent` with a checkpoint barrier: ready check, sender check (only runners of the current deployment are
+heard), `alignSender`, then `handleCheckpointBarrier` -/
 def barrier (s : St) (i sr id : Nat) : St × Out :=
   if !(s.procs i).deployed then (s, .barNotReady)
+  else if !(s.procs i).srcs.contains sr then (s, .barRefused)
   else if parked (s.procs i).inflight sr then (s, .barBlocked)
   else register s i sr id ((s.procs i).inflight.getD (id, (s.procs i).srcs)).1
          ((s.procs i).inflight.getD (id, (s.procs i).srcs)).2
@@ -268,6 +271,7 @@ def barrier (s : St) (i sr id : Nat) : St × Out :=
 /-- `HandleEvent` with a keyed event: `alignSender`, then `handleUserEvent` (add to the batcher, process when full) -/
 def event (s : St) (i sr tag : Nat) : St × Out :=
   if !(s.procs i).deployed then (s, .barNotReady)
+  else if !(s.procs i).srcs.contains sr then (s, .barRefused)
   else if parked (s.procs i).inflight sr then (s, .barBlocked)
   else if s.bmax ≤ (s.procs i).batch.length + 1 then
     ({ s with procs := setProc s.procs i { (s.procs i) with batch := [] } },
